@@ -31,6 +31,7 @@ import (
 	ptypes "github.com/ovrclk/akash/x/provider/types"
 
 	"verifsim/core"
+	"verifsim/simrt"
 )
 
 // ------------------------------------------------------------------ stubs
@@ -94,6 +95,7 @@ type mfSubmit struct {
 	hash      []byte
 	kind      string // valid | stale-version | bad-resources | bad-count | bad-endpoints | extra-service | empty
 	issuedAt  int
+	knownFrom int // step from which on-chain versions count for this submission: its issue step, or (Layer 2) the last sync point before it - updates injected since may not have reached the provider yet
 	returned  bool
 	retAt     int
 	err       error
@@ -115,11 +117,15 @@ type c20 struct {
 	versions    []mfVersion
 	preexisting []mtypes.LeaseID
 	leasesHeld  map[string]bool // lease path -> the provider was told it won and not that it closed
+	l2          bool            // goroutine-level run: no responsiveness pings, submissions are simulated tasks
 	busy        bool            // the service loop did not answer at the last quiescent point: no new stimulus is aimed at it
 	heldLoose   map[string]bool // leases held as far as the service can know: as of the last time its loop had consumed all delivered events
 	leasesWon   map[string]bool
 	submits     []*mfSubmit
 	announced   []announced
+	tapped      []announced
+	lastSync    int
+	cleanup     bool // the run is over: no more draws (Layer 2 cleanup is free-running)
 	fetchOK     bool
 	closed      bool // deployment closed event delivered
 	faults      int
@@ -131,6 +137,28 @@ type announced struct {
 	step  int
 	lease string
 	hash  []byte
+	// verdicts taken at the moment of publication (Layer 2 taps the bus the service publishes on)
+	tapped  bool
+	held    bool
+	fetched bool
+	hasDep  bool
+}
+
+// tapBus lets the harness see an announcement at the instant the manager publishes it (a harness
+// subscriber would see it only when the scheduler gets round to running the subscription's goroutine).
+type tapBus struct {
+	pubsub.Bus
+	x *c20
+}
+
+func (t *tapBus) Publish(ev pubsub.Event) error {
+	if mr, ok := ev.(event.ManifestReceived); ok {
+		x := t.x
+		lease := pathOf(mr.LeaseID)
+		x.tapped = append(x.tapped, announced{step: x.s.Step, lease: lease, hash: canonicalHash(*mr.Manifest), tapped: true,
+			held: x.leasesHeld[lease] || x.heldLoose[lease], fetched: x.fetchOK, hasDep: mr.Deployment != nil})
+	}
+	return t.Bus.Publish(ev)
 }
 
 func canonicalHash(m manifest.Manifest) []byte {
@@ -320,7 +348,7 @@ func runC20(r *core.Run) *core.Violation {
 			cur := x.versions[len(x.versions)-1].hash
 			// the node may have served the query any time between its issue and now: sometimes the
 			// answer is the state as of the issue (an update that happened meanwhile is not in it)
-			if r.Bool(40, "fetch.served-at-issue") {
+			if !x.cleanup && r.Bool(40, "fetch.served-at-issue") { // no draws during the (in Layer 2 free-running) cleanup
 				for i := len(x.versions) - 1; i >= 0; i-- {
 					if x.versions[i].from <= c.Start {
 						if i != len(x.versions)-1 {
@@ -353,6 +381,7 @@ func runC20(r *core.Run) *core.Violation {
 		panic(err)
 	}
 	defer func() {
+		x.cleanup = true
 		x.cancel()
 		for i := 0; i < 100; i++ {
 			x.s.Settle()
@@ -536,7 +565,10 @@ func (x *c20) submit(kind string) {
 	case "empty":
 		m = manifest.Manifest{}
 	}
-	sub := &mfSubmit{id: len(x.submits) + 1, m: m, kind: kind, issuedAt: x.s.Step, done: make(chan struct{})}
+	sub := &mfSubmit{id: len(x.submits) + 1, m: m, kind: kind, issuedAt: x.s.Step, knownFrom: x.s.Step, done: make(chan struct{})}
+	if x.l2 {
+		sub.knownFrom = x.lastSync
+	}
 	if len(m) > 0 {
 		sub.hash = canonicalHash(m)
 	}
@@ -548,10 +580,15 @@ func (x *c20) submit(kind string) {
 		ctx = c
 		_ = cancel
 	}
-	go func() {
+	run := func() {
 		sub.err = x.svc.Submit(ctx, x.did, m)
 		close(sub.done)
-	}()
+	}
+	if x.l2 {
+		simrt.Go(fmt.Sprintf("submit%d", sub.id), run)
+	} else {
+		go run()
+	}
 	r.Ops++
 	r.Logf("step %d: submit #%d (%s)", x.s.Step, sub.id, kind)
 	r.Abstract("submit|" + kind)
@@ -701,7 +738,25 @@ func (x *c20) observe() *core.Violation {
 	x.s.Settle()
 	// announcements first (the manager publishes before it replies)
 	var now []announced
-	for {
+	if x.l2 {
+		for _, a := range x.tapped {
+			now = append(now, a)
+			x.announced = append(x.announced, a)
+			r.Count("probe:announcements")
+			r.Logf("  announced manifest %x for lease %s (published at step %d)", a.hash[:4], a.lease, a.step)
+			if !a.held {
+				return x.flag("C20/announced-without-lease", "manifest announced for lease %s which the provider does not hold (never won, closed, or deployment closed) - judged at the moment of publication", a.lease)
+			}
+			if !a.fetched {
+				return x.flag("C20/announced-before-chain-data", "manifest announced before any deployment fetch succeeded")
+			}
+			if !a.hasDep {
+				return x.flag("C20/announced-without-deployment-data", "announcement carries no deployment data")
+			}
+		}
+		x.tapped = nil
+	}
+	for !x.l2 {
 		x.s.Settle()
 		var got interface{}
 		select {
@@ -749,7 +804,7 @@ func (x *c20) observe() *core.Violation {
 				if i+1 < len(x.versions) {
 					until = x.versions[i+1].from
 				}
-				if bytes.Equal(v.hash, s.hash) && v.from <= s.retAt && until >= s.issuedAt {
+				if bytes.Equal(v.hash, s.hash) && v.from <= s.retAt && until >= s.knownFrom {
 					okv = true
 				}
 			}
@@ -785,17 +840,27 @@ func (x *c20) observe() *core.Violation {
 	if len(now) > 0 {
 		var latestAccepted *mfSubmit
 		for _, s := range x.submits {
-			if s.returned && s.err == nil && (latestAccepted == nil || s.id > latestAccepted.id) {
+			// Layer 2: submissions race to the service, so the order of validation is not the order of
+			// issue and "latest" cannot be judged from outside; only "validated" is checked there
+			if !x.l2 && s.returned && s.err == nil && (latestAccepted == nil || s.id > latestAccepted.id) {
 				latestAccepted = s
 			}
 		}
 		for _, a := range now {
 			ok := false
 			for _, s := range x.submits {
-				if !s.returned || !bytes.Equal(s.hash, a.hash) {
+				if !bytes.Equal(s.hash, a.hash) {
 					continue
 				}
-				validByHarness := s.matches && x.wasOnChain(s.hash, s.issuedAt, x.s.Step)
+				validByHarness := s.matches && x.wasOnChain(s.hash, s.knownFrom, x.s.Step)
+				if !s.returned {
+					// the manager publishes before it replies: a submission still waiting for its answer
+					// may be the one that was just validated
+					if validByHarness && (latestAccepted == nil || s.id >= latestAccepted.id) {
+						ok = true
+					}
+					continue
+				}
 				possibly := s.err == nil || (validByHarness && (errors.Is(s.err, pmanifest.ErrNoLeaseForDeployment) || errors.Is(s.err, context.DeadlineExceeded) || errors.Is(s.err, context.Canceled)))
 				if possibly && (latestAccepted == nil || s.id >= latestAccepted.id) {
 					ok = true
@@ -808,6 +873,9 @@ func (x *c20) observe() *core.Violation {
 				return x.flag("C20/announced-not-latest", "announced manifest %x for lease %s, the latest validated manifest is %x (submit #%d)", a.hash[:4], a.lease, latestAccepted.hash[:4], latestAccepted.id)
 			}
 		}
+	}
+	if x.l2 {
+		return nil
 	}
 	// what the provider can know: refreshed whenever its service loop is idle again
 	x.busy = true
